@@ -179,12 +179,16 @@ def loadWf (db : DB) (wid : Nat) : Option WF :=
                      steps := (db.steps.filter (fun s => s.wf = wid)).map (loadStep db),
                      pid := some wid }
 
-/-- `WorkflowBuilder(deep_copy=True)`: the same structure, built through the loaders of a context that registers no ids -/
 def PortE.noId (p : PortE) : PortE := { p with pid := none }
 def StepE.noId (s : StepE) : StepE := { s with pid := none }
 def WF.noIds (w : WF) : WF := { w with ports := w.ports.map PortE.noId, steps := w.steps.map StepE.noId, pid := none }
 
-def copyWf (db : DB) (wid : Nat) : Option WF := (loadWf db wid).map WF.noIds
+/-- every step back in its initial state (`Status.WAITING` = 0) -/
+def WF.initial (w : WF) : WF := { w with steps := w.steps.map (fun s => { s with status := 0 }) }
+
+/-- `WorkflowBuilder(deep_copy=True)`: the same structure, built through the loaders of a context that registers no ids and puts
+every copied step back into its initial state (`step.status = Status.WAITING`) -/
+def copyWf (db : DB) (wid : Nat) : Option WF := (loadWf db wid).map (fun w => w.noIds.initial)
 
 /-! ### hypotheses (all decidable; the correspondence part builds workflows that satisfy them) -/
 
